@@ -17,7 +17,7 @@ TRUSTED_BASE = [
 ]
 ASSUMPTIONS = [
     'DelayOnError schedule theorem: 0 <= InitialInterval <= MaxInterval, Multiplier = num/den >= 1; the closed form min(Initial*m^(k-1), Max) is proved where the products are whole nanoseconds, otherwise the per-step law (multiply, round down to a whole ns, cap) and the upper bound',
-    'Throttle rate is a theorem over the ticker clock model; on the implementation the same spacing predicate is evaluated on wall-clock handler start times with a slack of one period (lower bound only)',
+    'Throttle rate is a theorem over the ticker clock model; on the implementation the same spacing predicate is evaluated per worker on wall-clock handler start times with one period of slack, and the window bound of C19_throttle_window on the whole run (lower bounds only, sound under any scheduling delay)',
     'chains with more than one Retry are compared with the model but not judged by the acceptor',
 ]
 
@@ -28,7 +28,7 @@ def lst(xs): return C.coq_list(list(xs))
 def val(v):
     if v[0] == 's': return '(MStr %s)' % N(v[1])
     if v[0] == 'd': return '(MDur %s)' % Z(v[1])
-    if v[0] == 'u': return '(MUntil %s)' % Z(v[1])
+    if v[0] == 'u': return '(MUntil %s %s)' % (Z(v[1]), Z(v[2]))
     raise C.CheckError('bad value %r' % (v,))
 
 def meta(m): return lst('(%s, %s)' % (N(k), val(v)) for k, v in m)
@@ -168,23 +168,27 @@ def run_once(ctx, res, binary, seed, n, thr, witness, tag):
         res.sample(dict(chain=chain_name(cases[len(cases) // 3]), script_len=len(cases[len(cases) // 3]['script']),
                         first_invocation=cases[len(cases) // 3]['invs'][:1]))
         res.sample(dict(chain=chain_name(cases[-1]), script_len=len(cases[-1]['script']), first_invocation=cases[-1]['invs'][:1]))
-    # Throttle timing
+    # Throttle timing: wall-clock lower bounds that hold whatever the scheduler does (the timestamp of a start is
+    # taken after the tick was received, so within ONE worker consecutive calls are ordered: spacing with one period
+    # of slack is sound; over all workers only the count in the whole window is)
     ths = data.get('throttle') or []
     if ths:
-        terms = []
-        for t in ths:
-            p = int(t['duration'] / t['count']) if t['count'] else 0     # Go: duration / time.Duration(count)
-            p = abs(t['duration']) // abs(t['count']) * (1 if (t['duration'] >= 0) == (t['count'] >= 0) else -1)
+        terms = []; owner = []; counts = []
+        for ti, t in enumerate(ths):
+            p = abs(t['duration']) // abs(t['count']) * (1 if (t['duration'] >= 0) == (t['count'] >= 0) else -1)   # Go: duration / time.Duration(count)
             t['period'] = p
-            terms.append('(Thr %s %s %s)' % (Z(p), Z(p), lst(Z(x) for x in t['starts'])))
+            for ws in t['starts']:
+                terms.append('(Thr %s %s %s)' % (Z(p), Z(p), lst(Z(x) for x in ws))); owner.append(ti)
+            counts.append(('R_cnt%d' % ti, 'thr_count_violates %s %s %s %s' % (Z(p), Z(t['n']), Z(t['first']), Z(t['last']))))
             res.count('throttle_workers=%d' % t['workers'])
             res.evaluations += 1
             res.nontrivial.add(('throttle', t['count'], t['duration'], t['workers']))
-        r = C.coq_eval(pid, 'thr_%s' % tag, HEADER + 'Definition cases : list thr_case := %s.\n' % lst(terms), [('R_thr', 'thr_violations cases')])
-        for i in r['R_thr']:
+        r = C.coq_eval(pid, 'thr_%s' % tag, HEADER + 'Definition cases : list thr_case := %s.\n' % lst(terms), [('R_thr', 'thr_violations cases')] + counts)
+        bad = {owner[i] for i in r['R_thr']} | {ti for ti in range(len(ths)) if r['R_cnt%d' % ti]}
+        for ti in sorted(bad):
             res.violations.append(dict(signature='C19/throttle-rate',
-                what='handler starts through one Throttle value are closer together than the configured rate allows (k starts in between => at least k-1 periods apart, one period of slack)',
-                case=ths[i]))
+                what='handler starts through one Throttle value are closer together than the configured rate allows (n starts in a window => n-2 periods fit; per worker k starts in between => k-1 periods apart)',
+                case=ths[ti]))
     return cases
 
 def run(ctx):
